@@ -10,6 +10,7 @@ import arch_util as au
 from common import err_code
 
 CONFIG = {
+    "source_ties": "Since round 8 also tied statically: harness/py2v_sliding.py re-reads SolutionBuffer / _remap / add_single / add on every run; Refine/SlidingRefine.v proves the translated sample index, remap trigger and buffer-full test equal to Model/Sliding.v's for all arguments.",
     "cone": ["Base/ListUtil.v", "Base/QUtil.v", "Base/FirstArgmax.v", "Base/MixedRadix.v", "Model/Store.v", "Proofs/StoreProofs.v",
              "Model/Archive.v", "Proofs/ArchiveProofs.v", "Proofs/C01Proofs.v", "Proofs/C02Proofs.v", "Proofs/C07Proofs.v",
              "Model/Sliding.v", "Proofs/SlidingProofs.v", "Model/Grid.v", "Model/SlidingIndex.v", "Proofs/SlidingBridge.v",
